@@ -159,13 +159,11 @@ Qed.
 (* ---- how LONG the parser runs: fuel is depth, not time ----
    C07_parser_total bounds the DEPTH of the parser's requests (6 * tokens + 6), not their number: it says that the
    parser comes back, not when.  Parse/Steps.v counts the requests ([goc] = [go] with a counter, same answer).
-   FINDING (reported; corpus/c14/suggested_statement_probe.diff): the statement parser probes with `assignable`
-   and then parses the same tokens again, so calls with function-literal arguments nested in statement position cost
-   24 * 2^depth - 11 requests (18 * 2^depth - 5 with a syntax error in the innermost body) - the model re-parses
-   exactly like the code, its running time is exponential too, and the real parser takes x1.9-2 per level (depth 22:
-   7 s).  With the suggested fix (model side: suggested_statement_probe.model.diff) the same inputs cost
-   13 + 11 * depth requests (13 + 7 * depth).  These are measurements of the model, pinned; a theorem
-   "steps <= c * tokens^2" is not proved. *)
+   Up to /repo 356c2fa the statement parser probed with `assignable` and then parsed the same tokens again: calls
+   with function-literal arguments nested in statement position cost 24 * 2^depth - 11 requests (18 * 2^depth - 5
+   with a syntax error in the innermost body), in the model as in the code.  Since the fix (the probe's result is
+   kept) the same inputs cost 13 + 11 * depth requests (13 + 7 * depth).  These are measurements of the model,
+   pinned; a theorem "steps <= c * tokens^2" is not proved. *)
 From Sylt Require Parse.Steps.
 
 Theorem C07_steps_same_answer : forall f q,
@@ -173,12 +171,12 @@ Theorem C07_steps_same_answer : forall f q,
 Proof. exact (Parse.Steps.goc_fst (interp GenPrec.table)). Qed.
 
 Example C07_steps_nested_calls :
-  map (fun d => Parse.Steps.steps (interp GenPrec.table) (Parse.Steps.nested_calls d)) [0; 1; 2; 3; 4; 5; 6; 7; 8; 9; 10]
-  = [13; 37; 85; 181; 373; 757; 1525; 3061; 6133; 12277; 24565] /\
-  map (fun d => Parse.Steps.steps (interp GenPrec.table) (Parse.Steps.nested_calls_err d)) [0; 1; 2; 3; 4; 5; 6; 7; 8; 9; 10]
-  = [13; 31; 67; 139; 283; 571; 1147; 2299; 4603; 9211; 18427] /\
-  (forall d, In d [0; 1; 2; 3; 4; 5; 6; 7; 8; 9; 10] ->
-     Parse.Steps.steps (interp GenPrec.table) (Parse.Steps.nested_calls d) + 11 = 24 * Nat.pow 2 d) /\
+  map (fun d => Parse.Steps.steps (interp GenPrec.table) (Parse.Steps.nested_calls d)) [0; 1; 2; 3; 4; 5; 10; 20; 40; 100]
+  = [13; 24; 35; 46; 57; 68; 123; 233; 453; 1113] /\
+  map (fun d => Parse.Steps.steps (interp GenPrec.table) (Parse.Steps.nested_calls_err d)) [0; 1; 2; 3; 4; 5; 10; 20; 40; 100]
+  = [13; 20; 27; 34; 41; 48; 83; 153; 293; 713] /\
+  (forall d, In d [0; 1; 2; 3; 4; 5; 10; 20; 40; 100] ->
+     Parse.Steps.steps (interp GenPrec.table) (Parse.Steps.nested_calls d) = 13 + 11 * d) /\
   (exists ss c, parse_program (interp GenPrec.table) (parse_fuel (Parse.Steps.nested_calls 3)) (Parse.Steps.nested_calls 3) = Ok (ss, c)) /\
   (exists c es, parse_program (interp GenPrec.table) (parse_fuel (Parse.Steps.nested_calls_err 3)) (Parse.Steps.nested_calls_err 3) = Err c es).
 Proof.
